@@ -14,11 +14,22 @@ import (
 type H struct {
 	vals  [][]int64 // per stream tag: the values to send
 	early bool      // start sending before the handler returns
+	// prefill: the handler returns a buffered channel that already holds all its values and is
+	// already closed (a backlog the forwarder finds queued when it first looks at the channel)
+	prefill bool
 }
 
 func (h *H) Sub(ctx context.Context, tag int) (<-chan int64, error) {
-	out := make(chan int64)
 	vs := h.vals[tag]
+	if h.prefill {
+		full := make(chan int64, len(vs))
+		for _, v := range vs {
+			full <- v
+		}
+		close(full)
+		return full, nil
+	}
+	out := make(chan int64)
 	send := func() {
 		defer close(out)
 		for _, v := range vs {
@@ -148,7 +159,7 @@ func HarnessEndToEnd() {
 		k1 = verif.Choice("k1", verif.Bound("K", 2)+1)
 	}
 	k2 := verif.Choice("k2", 2)
-	h := &H{vals: [][]int64{symVals("a", k1), symVals("b", k2)}, early: verif.Bool("early")}
+	h := &H{vals: [][]int64{symVals("a", k1), symVals("b", k2)}, early: verif.Bool("early"), prefill: verif.Bound("prefill", 0) == 1}
 	srv := jsonrpc.NewServer()
 	srv.Register("H", h)
 	url, stop := verif.ServeWS(srv)
